@@ -906,7 +906,8 @@ impl World {
         // registry-key bytes of every asset identifier (denom bytes; MockApi canonical bytes for contracts)
         let mut m = Map::new();
         for d in self.denoms.iter() {
-            m.insert(d.clone(), json!(d.as_bytes().iter().map(|b| *b as u32).collect::<Vec<u32>>()));
+            // denoms under "n:<denom>" (a denom may be spelled like a contract address)
+            m.insert(format!("n:{}", d), json!(d.as_bytes().iter().map(|b| *b as u32).collect::<Vec<u32>>()));
         }
         let mut names: Vec<String> = self.accounts();
         for p in self.pairs.iter() {
